@@ -125,10 +125,34 @@ Theorem C12_wire_remote_delete_touches_no_other : forall w s id h h', intern (w_
 Proof. exact wire_remote_del_others. Qed.
 Print Assumptions C12_wire_remote_delete_touches_no_other.
 
-Theorem C12_wire_remote_put_is_remote_put : forall w s id h a pl ep, intern (w_names w) id = Some h ->
-  wnext w s (WRemotePut (key_of_id (w_pool w) id) id a pl ep) = dnext s (DRemotePut h a pl ep).
+(* (after fix e669782) whatever subscriber id the JSON value carries *)
+Theorem C12_wire_remote_put_is_remote_put : forall w s id vid h a pl ep, intern (w_names w) id = Some h ->
+  wnext w s (WRemotePut (key_of_id (w_pool w) id) vid a pl ep) = dnext s (DRemotePut h a pl ep).
 Proof. exact wire_remote_put. Qed.
 Print Assumptions C12_wire_remote_put_is_remote_put.
+
+Theorem C12_wire_echo_is_echo : forall w s id vid h r, intern (w_names w) id = Some h ->
+  wnext w s (WEcho (key_of_id (w_pool w) id) (Some (vid, r))) = dnext s (DEcho h (Some r)).
+Proof. exact wire_echo. Qed.
+Print Assumptions C12_wire_echo_is_echo.
+
+(* keys of DIFFERENT pools on one store: separated when no pool id contains '/' (guard [no_slash]); in general
+   not — pool "a" / subscriber "b/c" and pool "a/b" / subscriber "c" write the same key, and the pool with the
+   shorter id reads (Query and Watch are by prefix) the other pool's record of [id] as its own subscriber "q/id".
+   Stated as a limit of the key scheme: the property text speaks of one allocator's records *)
+Theorem C12_keys_separate_pools_refuted : exists p1 id1 p2 id2, p1 <> p2 /\ key_of_id p1 id1 = key_of_id p2 id2.
+Proof. exact key_of_id_pools_refuted. Qed.
+Print Assumptions C12_keys_separate_pools_refuted.
+
+Theorem C12_keys_separate_pools_partial : forall p1 id1 p2 id2, no_slash p1 = true -> no_slash p2 = true ->
+  key_of_id p1 id1 = key_of_id p2 id2 -> p1 = p2 /\ id1 = id2.
+Proof. exact key_of_id_inj_pools. Qed.
+Print Assumptions C12_keys_separate_pools_partial.
+
+Theorem C12_nested_pool_reads_foreign_records : forall p q id,
+  id_of_key p (key_of_id (p ++ 47 :: q) id) = Some (q ++ 47 :: id).
+Proof. exact nested_pool_alias. Qed.
+Print Assumptions C12_nested_pool_reads_foreign_records.
 
 (* ---------- lease mode: refuted + partial (known findings K12a, K12b) ---------- *)
 (* loadAllocations re-Allocates every stored subscriber in enumeration order: the stored address is
@@ -146,6 +170,34 @@ Theorem C12_restart_preserves_lease_partial : forall s l, d_lease s = true -> le
   forall h r, In (h, r) l -> d_lookup (restart_with l s) h = Some (r_addr r).
 Proof. exact restart_preserves_lease_partial. Qed.
 Print Assumptions C12_restart_preserves_lease_partial.
+
+(* what exactly survives a lease-mode restart (all states, all enumerations):
+   - the store: untouched (a fresh allocator is at epoch 2, so the "expired, delete from the store" branch of
+     loadAllocations can never fire at Start);
+   - the SET of stored subscribers, not their addresses: under [lease_fits] (grace period 0/1, distinct
+     subscribers, they fit the pool) the n-th enumerated record's subscriber holds the (n+1)-th pool address,
+     whatever address its record carries — [lease_guard] of the _partial theorem above is [lease_fits] plus
+     "the record happens to carry that address";
+   - with a grace period >= 2 (mod 256) nobody is restored at all: every slot of a fresh allocator reads as
+     inside the grace window (C05's fresh-allocator-exhausted defect seen from here) *)
+Theorem C12_restart_lease_store_untouched : forall s l, d_store (restart_with l s) = d_store s.
+Proof. exact restart_store_lease. Qed.
+Print Assumptions C12_restart_lease_store_untouched.
+
+Theorem C12_restart_lease_positional : forall s l n h r, d_lease s = true -> lease_fits (d_cfg s) l = true ->
+  nth_error l n = Some (h, r) ->
+  d_lookup (restart_with l s) h = Some (add_nocarry32 (g_base (c_geo (d_cfg s))) (1 + N.of_nat n)).
+Proof. exact restart_lease_positional. Qed.
+Print Assumptions C12_restart_lease_positional.
+
+Theorem C12_lease_guard_implies_fits : forall c l, lease_guard c l = true -> lease_fits c l = true.
+Proof. exact lease_guard_fits. Qed.
+Print Assumptions C12_lease_guard_implies_fits.
+
+Theorem C12_restart_lease_nobody_when_grace_ge_2 : forall s l h, d_lease s = true ->
+  2 <= e_grace (fresh_ep (d_cfg s)) mod 256 -> d_lookup (restart_with l s) h = None.
+Proof. exact restart_lease_grace2_nobody. Qed.
+Print Assumptions C12_restart_lease_nobody_when_grace_ge_2.
 
 (* handleRemoteChange re-Allocates as well (marker 1202) *)
 Theorem C12_remote_put_applies_announced_lease_refuted :
@@ -240,3 +292,29 @@ Example C12_wire_ids_nonvacuous :
   holder_of_key w (key_of_id [112] [97; 47; 98]) = Some 0 /\ holder_of_key w (key_of_id [112] [98]) = Some 1 /\
   holder_of_key w (key_of_id [112] (key_prefix [112])) = Some 2.
 Proof. cbv zeta. repeat split; vm_compute; reflexivity. Qed.
+
+(* lease_fits without lease_guard: two records enumerated against their address order; each subscriber
+   comes back on the address of its POSITION (subscriber 1 was recorded with .2 and holds .1) *)
+Example C12_lease_positional_nonvacuous :
+  let l := [(1, {| r_addr := 167772162; r_pl := 32; r_ep := 2 |}); (0, {| r_addr := 167772161; r_pl := 32; r_ep := 2 |})] in
+  lease_fits wit_cfg l = true /\ lease_guard wit_cfg l = false /\
+  d_lookup (restart_with l (drun wit_cfg wit_ops)) 1 = Some 167772161 /\
+  d_lookup (restart_with l (drun wit_cfg wit_ops)) 0 = Some 167772162.
+Proof. cbv zeta. repeat split; vm_compute; reflexivity. Qed.
+
+Example C12_lease_grace2_satisfiable :
+  let c := {| c_lease := true; c_geo := c_geo wit_cfg; c_grace := 2; c_univ := [0; 1] |} in
+  d_lease (drun c wit_ops) = true /\ 2 <= e_grace (fresh_ep (d_cfg (drun c wit_ops))) mod 256 /\
+  aget 0 (d_store (drun c wit_ops)) = None.
+Proof. cbv zeta. split; [vm_compute; reflexivity|]. split; [vm_compute; discriminate|vm_compute; reflexivity]. Qed.
+
+(* an id that is not valid UTF-8 and the id encoding/json would write for it are different subscribers with
+   different keys; a put delivered under the first one's key acts on it whatever the value says *)
+Example C12_wire_binary_ids_nonvacuous :
+  let w := {| w_pool := [112]; w_names := [(0, [255]); (1, [239; 191; 189])] |} in
+  holder_of_key w (key_of_id [112] [255]) = Some 0 /\
+  wtrans w (WRemotePut (key_of_id [112] [255]) [239; 191; 189] 167772161 32 0) = Some (DRemotePut 0 167772161 32 0).
+Proof. cbv zeta. split; vm_compute; reflexivity. Qed.
+
+Example C12_no_slash_satisfiable : no_slash [112; 111; 111; 108; 45; 49] = true /\ no_slash [97; 47; 98] = false.
+Proof. split; vm_compute; reflexivity. Qed.
